@@ -79,5 +79,44 @@ func init() {
 		cw := ex.fn(rrel, "reusableConn", "closeWithErr")
 		okPool = okPool && cw != nil && contains(stmtStrings(ex, cw.Body), "delete(c.t.conns, c)") && contains(stmtStrings(ex, cw.Body), "delete(c.t.idleConns, c)")
 		ex.setBool("c08DeadConnsLeavePool", okPool, true, "closed pipeline connections are dropped in getReservedExchanger; a failing reusable connection removes itself from conns and idleConns")
+		// ---- the hand-over of the queries queued on a dialing pipeline connection to the dialed one: the order of the
+		// statements of the `case <-...dialFinished:` arms, read as data (top-level statements of the arm, printed)
+		const lrel = "pkg/upstream/transport/conn_lazy_dial.go"
+		arm := func(fd *ast.FuncDecl, comm string) (top []string, all []string, found bool) {
+			if fd == nil {
+				return
+			}
+			ast.Inspect(fd.Body, func(n ast.Node) bool {
+				if cc, ok := n.(*ast.CommClause); ok && cc.Comm != nil && ex.str(cc.Comm) == comm && !found {
+					found = true
+					for _, st := range cc.Body {
+						top = append(top, ex.str(st))
+						all = append(all, stmtStrings(ex, st)...)
+					}
+				}
+				return true
+			})
+			return
+		}
+		count := func(xs []string, s string) (n int) {
+			for _, x := range xs {
+				if x == s {
+					n++
+				}
+			}
+			return
+		}
+		{
+			top, all, found := arm(ex.fn(lrel, "lazyDnsConnEarlyReservedExchanger", "ExchangeReserved"), "<-ote.dialFinished")
+			iRes, iDone := indexOf(top, "rec, _ := dc.ReserveNewQuery()"), indexOf(top, "ote.earlyReserveCallWg.Done()")
+			shape := found && iRes >= 0 && iDone >= 0 && count(all, "rec, _ := dc.ReserveNewQuery()") == 1 && count(all, "ote.earlyReserveCallWg.Done()") == 1
+			ex.setBool("c08LazyEarlyReservesBeforeDone", iRes < iDone, shape,
+				"early ExchangeReserved, dial-finished arm: the queued query takes its slot on the dialed connection (dc.ReserveNewQuery) before it leaves the wait group (earlyReserveCallWg.Done); each exactly once")
+			top, all, found = arm(ex.fn(lrel, "lazyDnsConn", "ReserveNewQuery"), "<-lc.dialFinished")
+			iWait, iRet := indexOf(top, "lc.earlyReserveCallWg.Wait()"), indexOf(top, "return dc.ReserveNewQuery()")
+			shape = found && iRet >= 0 && count(all, "return dc.ReserveNewQuery()") == 1
+			ex.setBool("c08LazyLateWaitsForEarly", iWait >= 0 && iWait < iRet, shape,
+				"lazyDnsConn.ReserveNewQuery, dial-finished arm: a caller that arrives after the dial waits for the wait group of the queued queries before it reserves on the dialed connection")
+		}
 	})
 }
